@@ -367,6 +367,16 @@ def _twin(R, rng, ctx):
     w = dict(defn=defn, renaming=rho, sensor_renaming=srho, reading_renaming=rrho)
     try:
         base = _outputs_py(defn, pts, Ps, cse, k)
+    except np.linalg.LinAlgError:
+        # the *original* definition already has a numerically singular innovation covariance at a drawn point
+        # (e.g. two identical readings 2*u^12 with noise 1e-9): an ill-conditioned input, not a question of
+        # binding by name - the variants are not run
+        R.stats.inc("twin_units_skipped_singular_innovation_covariance_in_original")
+        return
+    except Exception as e:  # noqa: BLE001
+        R.add([K.V(K.exc_key("twin", e), f"the original definition raised: {K.exc_text(e)}", traceback=K.tb_text(e), **w)])
+        return
+    try:
         tw = _outputs_py(twin, [_rename_point(p, rho, srho, rrho) for p in pts],
                          [_map_keys(P, lambda n: rho[n]) for P in Ps], cse, k)
         pm = _outputs_py(perm, pts, Ps, cse, k)
